@@ -91,7 +91,7 @@ def main():
     paths = findings.write_replays(pid, new)
     evidence.write(mod, pid, args.tier, seed, st, wall, n_new=len(new), known=known)
     print(
-        f"{pid} tier={args.tier} seed={seed} evaluations={st.evaluations} states={len(st.states)} "
+        f"{pid} tier={args.tier} seed={seed} evaluations={st.evaluations} states={len(st.states) + st.states_by_construction} "
         f"transitions={st.transitions} validated={st.validated} outcomes={len(st.outcomes)} "
         f"wall={wall:.1f}s src={world.src_fingerprint()}"
     )
